@@ -16,9 +16,10 @@ def consistency(timeout_ms=20000):
     for name, ax in L.axioms_cached():
         s.add(ax)
     # some ground terms so that E-matching has something to chew on
-    a, b = z3.Consts("a b", L.V)
+    a, b, c_ = z3.Consts("a b c_", L.V)
     t = L.app(L.app(L.sempty, a), b)
     P = z3.Const("P", L.SetS)
+    s.add(L.mem(L.srem(t, a), b), L.nodup(L.srem(L.cat(t, t), c_)) == L.nodup(L.srem(L.cat(t, t), a)), L.slen(L.srem(L.srem(t, b), a)) == 0)
     s.add(L.slen(L.cat(t, t)) == 4, L.mem(L.filt(P, t), a) == z3.And(z3.Select(P, a)), L.nodup(L.addall(L.sempty, L.cat(t, t))))
     r = s.check()
     return str(r)
@@ -57,6 +58,12 @@ def concrete_instances():
             goals.append((L.mem(enc(s_), vals[x]) == (x in s_), "mem"))
             if x in s_:
                 goals.append((L.pos(enc(s_), vals[x]) == s_.index(x), "pos"))
+                rem = list(s_)
+                rem.remove(x)
+                goals.append((L.seq_eq(L.srem(enc(s_), vals[x]), enc(rem)), "srem"))
+                goals.append((L.slen(L.srem(enc(s_), vals[x])) == len(rem), "srem_len"))
+                for y in range(3):
+                    goals.append((L.mem(L.srem(enc(s_), vals[x]), vals[y]) == (y in rem), "srem_mem"))
             P = z3.Const("Pset", L.SetS)
             keep = [y for y in s_ if y != x]
             sol_hyp = [z3.Select(P, vals[y]) == (y != x) for y in range(3)]
